@@ -372,7 +372,7 @@ func (a SmallInt) DivideOverflow(b SmallInt) (result SmallInt, ok bool) {
 		return 0, false
 	}
 	c := a / b
-	return c, (c < 0) == ((a < 0) != (b < 0))
+	return c, c == 0 || (c < 0) == ((a < 0) != (b < 0))
 }
 
 // DivideVal another value and return an error
@@ -422,7 +422,7 @@ func (i SmallInt) DivideBigInt(other *BigInt) (Value, Value) {
 		return Undefined, Ref(NewZeroDivisionError())
 	}
 	iBigInt := big.NewInt(int64(i))
-	iBigInt.Div(iBigInt, other.ToGoBigInt())
+	iBigInt.Quo(iBigInt, other.ToGoBigInt())
 	if iBigInt.IsInt64() {
 		return SmallInt(iBigInt.Int64()).ToValue(), Undefined
 	}
@@ -436,7 +436,7 @@ func (i SmallInt) DivideSmallInt(other SmallInt) (Value, Value) {
 	result, ok := i.DivideOverflow(other)
 	if !ok {
 		iBigInt := big.NewInt(int64(i))
-		return Ref(ToElkBigInt(iBigInt.Div(iBigInt, big.NewInt(int64(other))))), Undefined
+		return Ref(ToElkBigInt(iBigInt.Quo(iBigInt, big.NewInt(int64(other))))), Undefined
 	}
 	return result.ToValue(), Undefined
 }
@@ -951,14 +951,19 @@ func leftBitshiftSmallInt[T SimpleInt](i SmallInt, other T) Value {
 	if other < 0 {
 		return SmallInt(0).ToValue()
 	}
-	complementaryShift := i >> (bitsize - other)
-	if other > bitsize || (i < 0 && complementaryShift != -1) || (i > 0 && complementaryShift != 0) {
-		// overflow
-		iBig := big.NewInt(int64(i))
-		iBig.Lsh(iBig, uint(other))
-		return Ref(ToElkBigInt(iBig))
+	if i == 0 {
+		return SmallInt(0).ToValue()
 	}
-	return (i << other).ToValue()
+	if other <= bitsize {
+		complementaryShift := i >> (bitsize - other)
+		if (i < 0 && complementaryShift == -1) || (i > 0 && complementaryShift == 0) {
+			return (i << other).ToValue()
+		}
+	}
+	// overflow
+	iBig := big.NewInt(int64(i))
+	iBig.Lsh(iBig, uint(other))
+	return Ref(ToElkBigInt(iBig))
 }
 
 func rightBitshiftSmallInt[T SimpleInt](i SmallInt, other T) Value {
@@ -1438,7 +1443,9 @@ func (i SmallInt) ModuloBigInt(other *BigInt) (Value, Value) {
 		return (i % oSmall).ToValue(), Undefined
 	}
 
-	return i.ToValue(), Undefined
+	iBigInt := big.NewInt(int64(i))
+	iBigInt.Rem(iBigInt, other.ToGoBigInt())
+	return SmallInt(iBigInt.Int64()).ToValue(), Undefined
 }
 
 func (i SmallInt) ModuloBigFloat(other *BigFloat) *BigFloat {
